@@ -90,6 +90,9 @@ func (c *ctx) micCase(maxFrm int) {
 	if c.rnd.Intn(3) == 0 {
 		p.conf = uint32(c.pick(0, 1, 65535, 65536, 65537))
 	}
+	if c.rnd.Intn(5) == 0 {
+		p.skey = p.fkey // byte-identical FNwkSIntKey and SNwkSIntKey (a 1.0 session on a 1.1 stack): the B1 half still binds ConfFCnt / TxDr / TxCh
+	}
 	phy := valToPhy(v, false)
 	ev := M{"ev": "setmic", "dir": dirOf(mt)}
 	p.fields(ev)
